@@ -55,7 +55,8 @@ class RandAgent(Agent):
         EV.append(("cb_can", self.agent_id, log))
 
     def executed_order(self, log):
-        EV.append(("cb_exe", self.agent_id, log))
+        # the agent's own holdings as it sees them inside the callback (C05 "at every moment", C11 "after holdings have been updated for the whole round")
+        EV.append(("cb_exe", self.agent_id, log, self.cash_amount, dict(self.asset_volumes)))
 
 
 class RandHFT(HighFrequencyAgent, RandAgent):
